@@ -1,5 +1,7 @@
 /* xapi_sd.h - C15 engine part: DFSD <-> SD, Vgroup/Vdata view of SD objects (included by e_xapi.c) */
 
+static void ndg_sd_audit(const char *path, const char *pair, int strict, int mode, int emit); /* xapi_meta.h */
+
 #define XMAXRANK 8
 #define XMAXVAR 12
 #define XMAXBYTES 8192
@@ -236,6 +238,7 @@ static void case_dfsd_sd(void)
     read_sd_check(path, "xapi-dfsd-sd", 1);
     read_dfsd_check(path, "xapi-dfsd-dfsd", 1);
     for (int j = 0; j < nxv; j++) check_ndg_raw(path, &xv[j], "xapi-dfsd-raw", "dfsd");
+    ndg_sd_audit(path, "xapi-dfsd-sd", 1, 0, 1); /* every attribute SD shows against the DFSD / AN views (xapi_meta.h) */
     if (case_no < 40) printf("SAMPLE dfsd->sd n=%d first nt=%d rank=%d\n", nxv, (int)xv[0].nt, (int)xv[0].rank);
     free((void *)path);
 }
